@@ -26,8 +26,69 @@ from unified_planning.model.htn import HierarchicalProblem, Method, Task
 from unified_planning.model.multi_agent import MultiAgentProblem, Agent
 from unified_planning.model.scheduling import SchedulingProblem
 
-UNITS = []
 MUTABLE = (list, dict, set)
+
+# ------------------------------------------------------------------------------------------------ proved kernels
+# The flat mixin `_clone_to` methods on the real source: every container field of `other` is a *fresh* heap object with the
+# same content as `self`'s, `self` is unchanged (separation at clone time for these fields, for all contents).
+import z3
+from pyvc.values import Ref, Seq, Map, Set, Opt, Enum, SBool, SRef, fresh_name, to_z3  # explicit: a star import would shadow the shortcuts' And/Or/Not
+from pyvc.values import Rec, Loc
+from pyvc.verify import Unit
+import unified_planning.model.mixins as _mx
+
+_ElemT = {"Fluent": Ref("Fluent22"), "Type": Ref("Type22"), "Object": Ref("Object22"), "FNode": Ref("FNode22")}
+
+
+class CloneTo(Unit):
+    prop = "C22"
+    allowed_raises = ()
+
+    def __init__(self, cls, fields):
+        self.cls, self.fields = cls, fields
+        self.name = f"{cls.__name__}._clone_to"
+        self.doc = "every container field of the target is a fresh object with the source's content; the source is unchanged"
+
+    def target(self):
+        return self.cls._clone_to
+
+    def configure(self, eng):
+        eng.partial_classes.add(self.cls)
+
+    def _fresh(self, eng, st, spec, name):
+        if spec[0] == "list":
+            return eng.fresh_of(st, Seq(_ElemT[spec[1]]), name), "list"
+        return eng.fresh_of(st, Map(_ElemT[spec[1]], _ElemT[spec[2]]), name), "dict"
+
+    def setup(self, eng, st):
+        src, dst, c0 = {}, {}, {}
+        for f, spec in self.fields.items():
+            v, kind = self._fresh(eng, st, spec, "self" + f)
+            c0[f] = v
+            src[f] = st.alloc(v, kind)
+            w, _ = self._fresh(eng, st, spec, "other" + f)
+            dst[f] = st.alloc(w, kind)
+        selfv = st.alloc(Rec(self.cls, src), "self")
+        other = st.alloc(Rec(self.cls, dst), "other")
+        return [selfv, other], {}, dict(selfv=selfv, other=other, src=src, c0=c0)
+
+    def post(self, eng, ctx, st, out):
+        if out[0] != "return":
+            return
+        for f in self.fields:
+            ls, lo = st.getfield(ctx["selfv"], f), st.getfield(ctx["other"], f)
+            st.oblige(f"{f}: the source still refers to its own container", z3.BoolVal(isinstance(ls, Loc) and ls.id == ctx["src"][f].id))
+            st.oblige(f"{f}: the target holds a fresh container, not the source's", z3.BoolVal(isinstance(lo, Loc) and lo.id != ctx["src"][f].id))
+            st.oblige(f"{f}: source content unchanged", st.load(ls).same(ctx["c0"][f]))
+            st.oblige(f"{f}: target content equals the source's", st.load(lo).same(ctx["c0"][f]))
+
+
+UNITS = [
+    CloneTo(_mx.FluentsSetMixin, {"_fluents": ("list", "Fluent"), "_initial_defaults": ("dict", "Type", "FNode"), "_fluents_defaults": ("dict", "Fluent", "FNode")}),
+    CloneTo(_mx.InitialStateMixin, {"_initial_value": ("dict", "FNode", "FNode")}),
+    CloneTo(_mx.ObjectsSetMixin, {"_objects": ("list", "Object")}),
+    CloneTo(_mx.UserTypesSetMixin, {"_user_types": ("list", "Type"), "_user_types_hierarchy": ("dict", "Type", "Type")}),
+]
 
 
 def _is_model_obj(x):
@@ -492,8 +553,8 @@ def replay_file(data):
     return {"reproduced": bool(failures), "concrete": c, "observed": [f["what"] for f in failures][:4]}
 
 
-LEVEL = "exploration"
+LEVEL = "other"
 EXPLANATION = __doc__
-TRUSTED = ["bounded stand-in only: no clone method is under a deductive contract (the comprehensions over dicts of lists of cloned effects and the "
-           "name-resolved metric re-binding are outside pyvc's subset)", "snapshot is repr-based: two different objects with equal repr are not told apart"]
+TRUSTED = ["proved: only the flat mixin _clone_to methods (fresh containers, equal content, source unchanged); Problem.clone itself, the action / effect / "
+           "timed-effect clones (comprehensions over dicts of lists of cloned effects) and the name-resolved metric re-binding are outside pyvc's subset: bounded", "snapshot is repr-based: two different objects with equal repr are not told apart"]
 USES_THEORY = False
